@@ -199,6 +199,10 @@ ExtSNIField(norm, found) ==
   ELSE /\ phase = "edit"
        /\ pending' = IF Protected THEN Add(pending, CSNI(norm)) ELSE {c \in pending : c.kind # "sni"}
        /\ UNCHANGED <<cls, status, applied, omitSNI, raw, rebuilt, wire, sent, hrrSeen, phase>>
+\* a field of an extension object that is already in UConn.Extensions changed in place, the extension keeps its wire
+\* length (an ALPN protocol renamed, bytes of a GenericExtension, an entry of supported_groups / supported_versions);
+\* body: what the extension has to look like on the wire now (found: the list has such an extension)
+InPlaceExt(t, body, found) == IF found THEN Edit(CExt(t, body), FALSE) /\ UNCHANGED omitSNI ELSE UNCHANGED bvars
 \* the protocol list of the ALPN extension object replaced (found: the extension list has one)
 ExtALPN(body, found) == IF found THEN Edit(CExt(16, body), FALSE) /\ UNCHANGED omitSNI ELSE UNCHANGED bvars
 
